@@ -10,6 +10,7 @@ from engine import pat
 from engine.util import own_nodes, calls_with_nodes, where
 
 RULES = {
+    "R-20.8": "adopted from C10: the copy-on-write helper of the base WritableVersion keeps its shape - fresh node, copied rdatasets, stored under and returned with the validated name (R-10.5)",
     "R-20.7": "adopted from C06: Name.fullcompare counts the labels in common before it returns any relation but NONE (bounds() reads that count)",
     "R-20.6": "storing a rdataset can REMOVE the NS rdataset of a node (Node.replace_rdataset evicts NS when a CNAME is stored, CNAME exclusivity): put_rdataset re-derives the delegation state afterwards - when the node was a delegation and holds no NS any more, the flag, the index entry and the subtree's GLUE flags go, exactly as in delete_rdataset(NS)",
     "R-20.5": "the delegation index is a B-tree shared copy-on-write between versions: it stays equal to the flags of ITS version only if no shared node is ever written (C19 R-19.1 adopted)",
@@ -325,6 +326,7 @@ def run(model, rep, tier):
                   "and its commit silently drops everything committed since", stmt="newest-base")
         rep.check(bool(fresh_idx) and all(conds(x) != conds(dn) for x in fresh_idx), "R-20.2", wi.qualname, where(wi, wi.node), "a replacement writer starts with an empty delegation index",
                   "no arm gives a replacement writer an empty delegation index", stmt="fresh-index")
+    rep.share(model, "C10", {"R-10.5"}, "R-20.8", "btreezone.put_rdataset / delete_rdataset use the name returned by the base class's _maybe_cow_with_name as the key of the delegation index and as the root of the glue walk: it must be the validated spelling on every return path")
     rep.share(model, "C06", {"R-06.11"}, "R-20.7", "ImmutableVersion.bounds() takes the closest encloser from the number of common labels that Name.fullcompare returns (its third result)")
     rep.share(model, "C19", {"R-19.9"}, "R-20.5", "zone.keys() / txn.iterate_names() iterate the BTree through BTree.__iter__: a writer that adds or deletes names while it walks them relies on the iterating cursor being registered (and parked by the mutation)")
     rep.share(model, "C19", {"R-19.1", "R-19.6"}, "R-20.5", "WritableVersion clones version.delegations (a BTreeSet) and version.nodes; a rolled-back or superseded writer must leave the older version's index intact")
